@@ -34,3 +34,11 @@ reg("C36", "model_checking", "TLA+ spec TaskReg model-checked with TLC; trace va
     "(live asyncio instances, new instance created, target invocations in progress after every call) must be a behaviour of the spec with its invariants.",
     "Trusted: TLC, the virtual-time loop. Reading: the registry is not used after stop(); an instance may end by itself at any time.",
     "DESIGN.md section 5 C36")
+
+reg("C46", "model_checking", "TLA+ spec AutoConnect model-checked with TLC; trace validation of the real _start_automatic; TLA+ filter reference judged by TLC",
+    "AutoConnect (scan loop that may pick any method the gateway supports and whose security agrees) is model-checked over every scan of up to two gateways "
+    "(NoDowngrade); the real _start_automatic is run for every single-gateway capability combination (with success and failure) and random 2-3 gateway scans "
+    "with failures and a keyring host filter, each recorded attempt sequence must be a behaviour of the spec; GatewayScanFilter.match is compared "
+    "with the TLA+ FilterMatch on all 32 x 96 combinations.",
+    "Trusted: TLC; stubbed _start_* methods and scanner generator (descriptors are built by the real parse_dibs from real DIB objects).",
+    "DESIGN.md section 5 C46")
